@@ -60,6 +60,29 @@ Example C03_restore_example :
   length (fst (log_del_children h 0)) + 0 = 6 /\ fst r = Err (HookExn 6) /\ heap_eqb (heap_of (snd r)) h = true.
 Proof. vm_compute. repeat split. Qed.
 
+(** ... and so is a veto by the _pre_attach of the FIRST new child, when that
+    child has no parent at that moment (a root, or a former child just detached):
+    nothing has been attached yet, every link is restored *)
+Theorem C03_children_first_pre_attach_veto_restores : forall typed asrt faults fu n x1 rest s,
+  let h := heap_of s in
+  let xs := x1 :: rest in
+  Inv h -> n < length h -> NoDup xs ->
+  x1 < length h -> x1 <> n -> ~ In x1 (ancestors_of h n) ->
+  (parent h x1 = None \/ parent h x1 = Some n) ->
+  let i0 := length (fst (log_del_children h n)) + cnt s in
+  (forall i k m, faults i k m = true -> i = S i0) ->
+  faults (S i0) PreAttach x1 = true ->
+  let r := set_children typed asrt faults (S (S fu)) n (CList (map VNode xs)) s in
+  fst r = Err (HookExn (S i0)) /\ heap_of (snd r) = h.
+Proof. exact AT.Proofs.MutRestore.first_pre_attach_veto_restores. Qed.
+Print Assumptions C03_children_first_pre_attach_veto_restores.
+Example C03_restore_example2 :
+  let h := attach_links (attach_links (init 3) 1 0) 2 0 in
+  let faults := fun (i : nat) (_ : hookkind) (_ : id) => Nat.eqb i 7 in
+  let r := set_children true false faults reentry_fuel 0 (CList [VNode 2; VNode 1]) (start h) in
+  fst r = Err (HookExn 7) /\ heap_eqb (heap_of (snd r)) h = true.
+Proof. vm_compute. repeat split. Qed.
+
 (** ... and that guard is the exact boundary: a _pre_attach veto on a MOVE
     leaves the node detached (KF-C03-1) *)
 Theorem C03_parent_refuted : exists h n v faults r s',
